@@ -210,6 +210,9 @@ func script2Kind(p Plan) string {
 			onlyRemark = false
 		}
 	}
+	if !onlyDel && asaGroupSwapOnly(p) {
+		return "identical-groups-swap-only"
+	}
 	switch {
 	case onlyDel:
 		return "leftover-object-deletion-only"
@@ -292,4 +295,37 @@ func liveConverge(c *Ctx, cs *CiscoCase, tp *tape.Tape, p Plan) *Failure {
 		c.Count("plan_vs_live_diff", 1)
 	}
 	return nil
+}
+
+var asaLineRE = regexp.MustCompile(` line \d+ `)
+var drcTagRE = regexp.MustCompile(`-DRC-\d+`)
+
+// asaGroupSwapOnly: the script only replaces ACL lines by the same lines with
+// another generated name of an (identical) object-group, and deletes objects.
+func asaGroupSwapOnly(p Plan) bool {
+	adds, dels := map[string]int{}, map[string]int{}
+	n := 0
+	for _, c := range p.Script {
+		l := c.Line
+		switch {
+		case strings.HasPrefix(l, "no object-group "), strings.HasPrefix(l, "clear configure "):
+			continue
+		case strings.HasPrefix(l, "no access-list "):
+			dels[cisco.NormACE("ASA", drcTagRE.ReplaceAllString(asaLineRE.ReplaceAllString(strings.TrimPrefix(l, "no "), " "), ""))]++
+		case strings.HasPrefix(l, "access-list "):
+			adds[cisco.NormACE("ASA", drcTagRE.ReplaceAllString(asaLineRE.ReplaceAllString(l, " "), ""))]++
+		default:
+			return false
+		}
+		n++
+	}
+	if n == 0 || len(adds) != len(dels) {
+		return false
+	}
+	for k, v := range adds {
+		if dels[k] != v || !strings.Contains(k, "object-group ") {
+			return false
+		}
+	}
+	return true
 }
